@@ -372,3 +372,95 @@ def random_pair_records(seed, count, T=60, maxsp=20):
                      "mtau": [rnd.choice([0, 0, 4, 8, 20, 130, 400]), 4],
                      "ri": rnd.random() < 0.4, "path": ["random"]})
     return recs
+
+
+# ------------------------------------------------------------------------------------------------
+# long inputs for the add routines (AddTrace.tla)
+def _long_fn(rnd, kind, T, n):
+    """integer breakpoints in [0, T], integer values; pwl pieces have integer slopes (values at integer times
+    are integers); disc: events may sit on the edges, the edge entries repeat their neighbours"""
+    inner = sorted(rnd.sample(range(1, T), n))
+    if kind == "disc":
+        ev = list(inner)
+        if rnd.random() < 0.3:
+            ev = [0] + ev
+        if rnd.random() < 0.3:
+            ev = ev + [T]
+        y = [rnd.randint(-4, 6) for _ in ev]
+        mp = [rnd.randint(1, 3) for _ in ev]
+        return {"x": [0] + ev + [T], "y1": [y[0]] + y + [y[-1]], "y2": [mp[0]] + mp + [mp[-1]]}
+    x = [0] + inner + [T]
+    if kind == "pwc":
+        y = [rnd.randint(-5, 5) for _ in range(len(x) - 1)]
+        return {"x": x, "y1": y, "y2": y}
+    y1, y2 = [], []
+    for k in range(len(x) - 1):
+        a = rnd.randint(-5, 5)
+        y1.append(a)
+        y2.append(a + rnd.randint(-2, 2) * (x[k + 1] - x[k]))
+    return {"x": x, "y1": y1, "y2": y2}
+
+
+def validate_add(ctx, kinds, seed, count, T=300, n=110):
+    """recorded f.add(g) on long functions under both backends against the sum the specification computes"""
+    import random
+    import impl
+    from checkers_func import mk, arrays, same, show
+    from common import fr as fr_
+    rnd = random.Random(seed)
+    traces = []
+    for t in range(count):
+        kind = kinds[t % len(kinds)]
+        nf = rnd.choice([3, n // 2, n, n + 30])
+        ng = rnd.choice([2, n // 3, n, n + 40])
+        f, g = _long_fn(rnd, kind, T, nf), _long_fn(rnd, kind, T, ng)
+        if rnd.random() < 0.5:       # many shared breakpoints
+            keep = sorted(set(f["x"][1:-1][::2]) | set(g["x"][1:-1][:5]))
+            if kind != "disc":
+                y = [rnd.randint(-5, 5) for _ in range(len(keep) + 1)]
+                g = {"x": [0] + keep + [T], "y1": y, "y2": y if kind == "pwc" else [v + (b - a) for v, a, b in zip(y, [0] + keep, keep + [T])]}
+        traces.append({"id": t + 1, "kind": kind, "f": f, "g": g})
+    d = scratch("pyspike_add_")
+    try:
+        path = os.path.join(d, "traces.json")
+        with open(path, "w") as fh:
+            json.dump(traces, fh)
+        res = run_tlc("AddTrace", {}, ["SumWellFormed", "Verdict"], init="TInit", nxt="TNext", workers=8, timeout=3000,
+                      env={"TRACE_FILE": path})
+    finally:
+        rmtree(d)
+    ctx.add_tlc(res, "%d recorded add calls on functions with up to %d breakpoints (T = %d): the sum the transcribed routines give" % (count, n + 40, T))
+    if res.violated:
+        return
+    sums = {v["id"]: v["r"] for v in res.exports if v.get("k") == "addsum"}
+    if len(sums) != len(traces):
+        raise MachineryError("AddTrace returned %d sums for %d calls" % (len(sums), len(traces)))
+    for be in ("py", "shim"):
+        impl.set_backend(be)
+        for t in traces:
+            kind = t["kind"]
+            a, b = mk(kind, t["f"]), mk(kind, t["g"])
+            snap = arrays(kind, b)
+            st, r = impl.call(lambda: a.add(b))
+            ctx.traces += 1
+            ctx.evaluations += len(sums[t["id"]]["x"])
+            what = "%s add, %d + %d breakpoints [%s]" % (kind, len(t["f"]["x"]), len(t["g"]["x"]), be)
+            if st != "ok":
+                ctx.mismatch("add_long", {"trace": t, "backend": be}, "%s raised %s" % (what, r))
+                continue
+            exp = sums[t["id"]]
+            got = arrays(kind, a)
+            e = ([float(v) for v in exp["x"]], [float(fr_(v)) for v in exp["y1"]], [float(fr_(v)) for v in exp["y2"]])
+            if kind == "pwc":
+                e = e[:2]
+            if not same(got, e, 1.0, disc=(kind == "disc")):
+                k0 = next((i for i, (u, v) in enumerate(zip(list(got[0]), e[0])) if u != v), min(len(got[0]), len(e[0])))
+                ctx.mismatch("add_long", {"trace": t, "backend": be},
+                             "%s: the sum has %d breakpoints, the specification %d; first difference at position %d: %s / %s" % (
+                                 what, len(got[0]), len(e[0]), k0, [list(map(float, c[max(0, k0 - 1):k0 + 2])) for c in got],
+                                 [c[max(0, k0 - 1):k0 + 2] for c in e]))
+                continue
+            if not all(np.array_equal(u, v) for u, v in zip(arrays(kind, b), snap)):
+                ctx.mismatch("add_long", {"trace": t, "backend": be}, "%s: the added operand was modified" % what)
+    impl.set_backend("py")
+    ctx.count_actions(["add.%s" % k for k in kinds], "AddTrace.")
